@@ -283,6 +283,8 @@ class BasePort(logging_utils.LoggableMixin, metaclass=abc.ABCMeta):
         self._writing: bool = False
         # Serializes the writer task with the direct write done while loading persisted data
         self._write_lock: asyncio.Lock = asyncio.Lock()
+        # Keeps submissions in call order while their write transform is evaluated
+        self._submit_lock: asyncio.Lock = asyncio.Lock()
 
         self._eval_queue: asyncio.Queue = asyncio.Queue(maxsize=self.WRITE_VALUE_QUEUE_SIZE)
         self._eval_task: Optional[asyncio.Task] = None
@@ -758,16 +760,21 @@ class BasePort(logging_utils.LoggableMixin, metaclass=abc.ABCMeta):
     async def transform_and_write_value(self, value: NullablePortValue) -> None:
         value_str = json_utils.dumps(value)
 
-        if self._transform_write:
-            context = self._make_eval_context(port_values={self.get_id(): value})
-            try:
-                value = await self.adapt_value_type(await self._transform_write.eval(context))
-            except core_expressions.ValueUnavailable:
-                value = None
-            value_str = f'{value_str} ({json_utils.dumps(value)} after write transform)'
+        # Evaluating the write transform suspends for a number of loop iterations that depends on the value (lazy IF
+        # branches, failing arguments); values are transformed and queued one at a time, in the order of the calls
+        async with self._submit_lock:
+            if self._transform_write:
+                context = self._make_eval_context(port_values={self.get_id(): value})
+                try:
+                    value = await self.adapt_value_type(await self._transform_write.eval(context))
+                except core_expressions.ValueUnavailable:
+                    value = None
+                value_str = f'{value_str} ({json_utils.dumps(value)} after write transform)'
+
+            done = self._queue_value(value)
 
         try:
-            await self._write_value_queued(value)
+            await done
             self.debug('wrote value %s', value_str)
         except Exception:
             self.error('failed to write value %s', value_str, exc_info=True)
@@ -778,6 +785,10 @@ class BasePort(logging_utils.LoggableMixin, metaclass=abc.ABCMeta):
         return self._writing
 
     async def _write_value_queued(self, value: NullablePortValue) -> None:
+        # Wait for actual write_value operation to be done
+        await self._queue_value(value)
+
+    def _queue_value(self, value: NullablePortValue) -> asyncio.Future:
         done = asyncio.get_running_loop().create_future()
 
         while True:
@@ -794,8 +805,7 @@ class BasePort(logging_utils.LoggableMixin, metaclass=abc.ABCMeta):
 
         self._pending_value = value
 
-        # Wait for actual write_value operation to be done
-        await done
+        return done
 
     async def _write_value_loop(self) -> None:
         while True:
